@@ -172,6 +172,9 @@ func clearFacts() {
 	knownFalse = map[int]bool{}
 	knownVal = map[int]*Term{}
 	selectCache = map[[2]int]*Term{}
+	// disequalities learned from one function's (or one case's) assumptions must not leak into another:
+	// terms are hash-consed globally and parameter names recur
+	distinctPairs = map[[2]int]bool{}
 }
 
 func setFact(t *Term) {
